@@ -4,7 +4,11 @@
 use crate::kfam::{run, Opts, BASE};
 use crate::c08::CLASS_ANY;
 const O: Opts = Opts { class: CLASS_ANY, a_arch: true, a_mem: true, a_depth: true, a_calls: true, ..BASE };
+const V: Opts = Opts { real_traps: Some(false), ..O };
 crate::kstep_harnesses! {
+    c13_run_limit1_vt = run(Opts { mode: 1, ..V });
+    c13_run_breakpoint_vt = run(Opts { mode: 4, ..V });
+    c13_run_limit1_iregs_vt = run(Opts { mode: 1, iregs: true, ..V });
     c13_run_limit1 = run(Opts { mode: 1, ..O });
     c13_step_over = run(Opts { mode: 2, ..O });
     c13_step_out = run(Opts { mode: 3, ..O });
